@@ -97,6 +97,7 @@ func init() {
 		"os.LookupEnv":          func(fr *frame, a []value) value { return tuple{"", false} },
 		"syscall.Getenv":        func(fr *frame, a []value) value { return tuple{"", false} },
 		"crypto/rand.Read":      extRandRead,
+		"reflect.DeepEqual":     extDeepEqual,
 		// go:linkname pulls
 		"mime/multipart.readMIMEHeader": extLinkname("net/textproto", "readMIMEHeader"),
 		// GODEBUG settings: all at their defaults
@@ -1523,6 +1524,112 @@ func reflectTagJSON(tag string) string {
 // crypto/rand.Read (M-RAND): nonces have no functional role in git-bug; the bytes are a
 // fixed pattern so that native replays, which draw real random bytes, cannot diverge on
 // anything that depends on them being equal to the model's.
+// reflect.DeepEqual on concrete interpreter values (structs, slices, maps, pointers,
+// interfaces, scalars, strings); symbolic parts make the path inconclusive.
+func extDeepEqual(fr *frame, args []value) value {
+	return deepEq(fr.i, args[0], args[1], 0)
+}
+
+func deepEq(i *interpreter, a, b value, depth int) bool {
+	if depth > 64 {
+		panic(engineError("reflect.DeepEqual: too deep (cyclic value?)"))
+	}
+	switch x := a.(type) {
+	case nil:
+		return b == nil
+	case iface:
+		y, ok := b.(iface)
+		if !ok {
+			return false
+		}
+		if x.t == nil || y.t == nil {
+			return x.t == nil && y.t == nil
+		}
+		if !types.Identical(x.t, y.t) {
+			return false
+		}
+		return deepEq(i, x.v, y.v, depth+1)
+	case structure:
+		y, ok := b.(structure)
+		if !ok || len(x) != len(y) {
+			return false
+		}
+		for k := range x {
+			if !deepEq(i, x[k], y[k], depth+1) {
+				return false
+			}
+		}
+		return true
+	case array:
+		y, ok := b.(array)
+		if !ok || len(x) != len(y) {
+			return false
+		}
+		for k := range x {
+			if !deepEq(i, x[k], y[k], depth+1) {
+				return false
+			}
+		}
+		return true
+	case []value:
+		y, ok := b.([]value)
+		if !ok || len(x) != len(y) || (x == nil) != (y == nil) {
+			return false
+		}
+		for k := range x {
+			if !deepEq(i, x[k], y[k], depth+1) {
+				return false
+			}
+		}
+		return true
+	case *value:
+		y, ok := b.(*value)
+		if !ok {
+			return false
+		}
+		if x == y {
+			return true
+		}
+		if x == nil || y == nil {
+			return false
+		}
+		return deepEq(i, *x, *y, depth+1)
+	case *omap:
+		y, ok := b.(*omap)
+		if !ok {
+			return false
+		}
+		if x == y {
+			return true
+		}
+		if x == nil || y == nil || x.len() != y.len() {
+			return false
+		}
+		if x.symKeys > 0 || y.symKeys > 0 {
+			panic(engineError("reflect.DeepEqual: map with symbolic keys"))
+		}
+		for k := range x.keys {
+			if !x.live[k] {
+				continue
+			}
+			w, has := y.lookup(i, x.keys[k])
+			if !has || !deepEq(i, x.vals[k], w, depth+1) {
+				return false
+			}
+		}
+		return true
+	case sym, symstr:
+		panic(engineError("reflect.DeepEqual on a symbolic value"))
+	}
+	if _, isSym := b.(sym); isSym {
+		panic(engineError("reflect.DeepEqual on a symbolic value"))
+	}
+	if _, isSym := b.(symstr); isSym {
+		panic(engineError("reflect.DeepEqual on a symbolic value"))
+	}
+	return a == b
+}
+
 // extLinkname forwards a body-less //go:linkname declaration to the function it names.
 func extLinkname(pkgPath, name string) func(fr *frame, args []value) value {
 	return func(fr *frame, args []value) value {
